@@ -256,7 +256,7 @@ def judge(c):
     z = c.meta["zone"] if c.meta["zone"] is not None else c.meta["defz"]
     if z is None and not c.meta["trunc"]:
         z = (0, 0)      # told to default to unknown: a full point is then in UTC; only truncated points stay unknown
-    zs = "- -" if z is None else "%d %d" % z
+    zs = "- -" if z is None else "%d %d" % tuple(z)
     if " ".join(t[9:11]) != zs:
         res.append(("violation", "%r: zone parsed as (%s), expected (%s)" % (text, " ".join(t[9:11]), zs)))
     if (t[11] == "1") != bool(c.meta["trunc"]):
